@@ -35,7 +35,9 @@ RULE = ('(a) kind `tree`: 45 fixed formulas (reversed / one-cell / $-mixed range
         'binary operators (+ - * / over numeric, & and the six comparisons over scalar sub-trees), flat arrays of 1..3 '
         'scalars, and nested calls of 10 modelled builtins (SUM IF AND OR NOT ISNUMBER ISBLANK N IFERROR ISTEXT), 3 '
         'unmodelled ones (MAX ABS COUNT) and custom functions ID / ARGS / K7 (incl. zero-argument K7(), an omitted slot in '
-        'the middle, `;`-separated and two-row `a,b;c,d` argument lists), a raising function BOOM, an unknown name (NOSUCH, '
+        'the middle, `;`-separated and two-row `a,b;c,d` argument lists) and, 2 of 8 draws of the custom share (ID 2, ARGS 4), the '
+        'host functions Vat (= its first argument, as ID) and net_of (= its argument list, as ARGS; omitted slot in the middle as '
+        'for ARGS, no two-row list) registered under names with lower-case letters and written that way, a raising function BOOM, an unknown name (NOSUCH, '
         'XYZZY); each rendered minimally or (30%) fully parenthesised, 30% with white space at token boundaries. Listeners '
         'on all four events of a fresh hotxlfp.Parser record every field (call arguments as deep copies) in one ordered '
         'log; AHEAD of them every parser that evaluates a case (all kinds (a)-(e), the reference runs of (e) included) gets, for '
@@ -48,7 +50,7 @@ RULE = ('(a) kind `tree`: 45 fixed formulas (reversed / one-cell / $-mixed range
         'reference/call nodes of the generating tree (for a fixed text: of the tree the real ply tables build with '
         'tree-building actions; a text they reject is not judged), a prefix of it when the record carries an error - except '
         'for a `total` seeded tree (never_aborts: made only of integer / decimal literals, cell references, single names of '
-        'the 6 defined variables, + - * /, and flat or zero-argument calls of SUM / ID / ARGS / K7 without a second row, '
+        'the 6 defined variables, + - * /, and flat or zero-argument calls of SUM / ID / ARGS / K7 / Vat / net_of without a second row, '
         'omitted slots allowed, ranges only as direct arguments of SUM): such a tree cannot raise, an error in its record is '
         'an error VALUE (division by zero, text - a text cell - under arithmetic) and the full list is demanded '
         'all the same (seeded trees of (a) and seeded steps of (d) only; not fixed texts, not (e)); each cell event carries '
@@ -60,9 +62,11 @@ RULE = ('(a) kind `tree`: 45 fixed formulas (reversed / one-cell / $-mixed range
         'within 4 ulps, unmodelled ones accepted); where the model has no opinion on the result (unmodelled builtin) its '
         'events must be a prefix of the log; no comparison when a logical reaches an aggregate other than SUM (here MAX). '
         '(b) kind `setter`, 700 / 6000 x scale: 0..3 listeners each calling the setter 0..3 times with values from a pool '
-        'of 13 {None, 0, 0.0, False, "", "x", 5, [], [1], a date, 3 host objects with an equality of their own: equal to '
-        'everything / raising on foreign operands / element-wise without truth value} (25% of the plans all None) for one '
-        'of the four events: cell, range, variable vx (undefined, or holding one of the 9 plain non-None pool values), '
+        'of 17 {None, 0, 0.0, False, "", "x", 5, [], [1], a date, 3 host objects with an equality of their own: equal to '
+        'everything / raising on foreign operands / element-wise without truth value, and (indexes 13..16) 4 texts that spell a '
+        'number: "02134", "1e3", " 7 ", "12" - text is handed on as that text} (25% of the plans all None) for one '
+        'of the four events: cell, range, variable vx (undefined, or holding one of the 9 plain non-None pool values or one of the '
+        '4 numeric-looking texts), '
         'function (custom returning any pool value incl. None, builtin SUM(1,2), raising BOOM(1)); read back from the '
         'record or (40%) through a capturing function CAP; here the recording listeners set nothing (they, the once-tracer and '
         'the self-unsubscribing listener are registered before the plan\'s listeners). Oracle: last non-None '
@@ -145,7 +149,7 @@ ASSUMPTIONS = ['labels with a zero row or leading zeros (A0, A01) are outside th
                '(the log must be a prefix of the post-order list); the oracle grants this whenever the record carries an '
                'error, an error VALUE (1/0, BOOM) included - there the full count is demanded by the model comparison only; '
                'except for seeded trees made only of constructs taken to be unable to RAISE (number literals, cell references, '
-               'single defined variables, + - * / on them, flat SUM / ID / ARGS / K7 calls, ranges directly under SUM): there '
+               'single defined variables, + - * / on them, flat SUM / ID / ARGS / K7 / Vat / net_of calls, ranges directly under SUM): there '
                'an error in the record can only be an error VALUE (division by zero is #DIV/0!, arithmetic on text - a text '
                'cell - is #VALUE!), nothing was aborted, and the oracle itself demands one event for every '
                'reference and call',
@@ -158,7 +162,8 @@ ASSUMPTIONS = ['labels with a zero row or leading zeros (A0, A01) are outside th
                'for a variable = the first name of a dotted sequence, once; literals, operators, arrays and omitted slots '
                'raise nothing; an unknown function raises no event (the evaluation ends there), an undefined variable does',
                '`becomes the value of the reference` is observed as the record of the bare reference or as the one argument a '
-               'capturing function receives, and means the same type too (0, 0.0, False, "" pairwise different, lists '
+               'capturing function receives, and means the same type too (0, 0.0, False, "" pairwise different, a text that '
+               'spells a number - "02134", "1e3", " 7 ", "12" - stays that text, character for character, lists '
                'element-wise, host objects the same object); the last non-None value over ALL listeners counts; handing over '
                'None equals not calling; without a value a cell / range is blank, a defined variable keeps its stored value, '
                'a call its return value or raised error; an undefined variable left without a value is #NAME? (C09, not '
@@ -1235,7 +1240,9 @@ def _event_agrees(m, e):
     if e[0] == 'fn':
         if not (len(m) == 3 and dec_str(m[1]) == e[1] and isinstance(m[2], list) and len(m[2]) == len(e[2])):
             return False
-        return all(fx.value_matches(mm, vv) is not False for mm, vv in zip(m[2], e[2]))
+        # (a float argument is the double arithmetic of the code against the model's exact rationals: 1e-9 relative, absolute below 1,
+        # as for the record - a difference of nearly equal numbers loses more than a few ulps)
+        return all(fx.value_matches(mm, vv, rel=1e-9) is not False for mm, vv in zip(m[2], e[2]))
     return False
 
 
